@@ -99,6 +99,7 @@ func VerifH_C04_Inbound() {
 	// reference receiver: pending QoS 2 ids
 	var pendID []uint16
 	var pendOn []bool
+	var pendTag []byte
 	for i := 0; i < k; i++ {
 		s := seg[i]
 		switch kinds[i] {
@@ -137,15 +138,19 @@ func VerifH_C04_Inbound() {
 			if !found {
 				pendID = append(pendID, ids[i])
 				pendOn = append(pendOn, true)
+				pendTag = append(pendTag, byte(i+1))
 			}
 		case 3:
 			known := false
+			var firstTag byte
 			for j := range pendID {
 				if pendOn[j] && pendID[j] == ids[i] {
 					known = true
 					pendOn[j] = false
+					firstTag = pendTag[j]
 				}
 			}
+			_ = firstTag
 			if known {
 				verifReach("pubrel-known")
 				if withHandler {
@@ -154,6 +159,15 @@ func VerifH_C04_Inbound() {
 					if ok {
 						verifAssert(s[1].id == ids[i], "C04.pubcomp_id")
 						verifAssert(s[0].id == ids[i], "C04.handed_message_is_the_released_one")
+						// content: the payload of one of the PUBLISH packets carrying that id (first or a DUP retransmission),
+						// never the content of some other packet
+						okTag := false
+						for j := 0; j < i; j++ {
+							if kinds[j] == 2 && s[0].tag == byte(j+1) {
+								okTag = verifOr(okTag, ids[j] == ids[i])
+							}
+						}
+						verifAssert(okTag, "C04.handed_payload_belongs_to_released_id")
 					}
 				} else {
 					ok := len(s) == 1 && s[0].kind == 'W' && s[0].typ == 7
